@@ -625,17 +625,3 @@ Example stl_surface_example :
     Ok [([0;0;0], [0;1;0], [1;1;0]); ([1;1;0], [1;0;0], [0;0;0])]%Q.
 Proof. vm_compute. reflexivity. Qed.
 
-Print Assumptions stl_facets_length.
-Print Assumptions stl_declared_count.
-Print Assumptions stl_add_faces_quads.
-Print Assumptions stl_vertices_on_grid.
-Print Assumptions stl_grid_covered.
-Print Assumptions stl_split_spec.
-Print Assumptions stl_consecutive_quads_share_edge.
-Print Assumptions pad3_spec.
-Print Assumptions stl_pad_spec.
-Print Assumptions stl_write_surface_spec.
-Print Assumptions stl_params_given.
-Print Assumptions stl_params_general.
-Print Assumptions stl_params_general_duplicate.
-Print Assumptions stl_dir_params_domain.
